@@ -9,6 +9,10 @@ def run(ctx):
     # random deeper programs over every operator, builtin and value kind, recorded from the real evaluator and validated by Trace_Expr
     tr = ctx.record("prog-random", "expr", ["-mode", "prog", "-n", 30000 if ctx.thorough else 2000, "-seed", ctx.seed * 100 + 5])
     ctx.validate("prog-random-validate", "trace/Trace_Expr.tla", "trace/Trace_Expr.cfg", tr, "expr", shards=14 if ctx.thorough else 2)
+    # the same kind of programs judged node by node (Trace_Nodes): every operator, member access and call on the values its
+    # operands were observed to have, so a cell is checked wherever it occurs, not only where the whole program is pinned
+    nd = ctx.record("nodes-random", "nodes", ["-n", 8000 if ctx.thorough else 700, "-seed", ctx.seed * 100 + 55])
+    ctx.validate("nodes-random-validate", "trace/Trace_Nodes.tla", "trace/Trace_Nodes.cfg", nd, "nodes", shards=14 if ctx.thorough else 2, cut="start")
     return ctx.finish(
         rule="all ordered pairs of value spellings x {< > <= >= == != === !==} evaluated by the real evaluator; compared: the "
              "boolean result; plus seeded random programs (depth <= 4, all operators / builtins / value kinds) validated by the trace specification; non-trivial = pairs the property pins (number x number, string x string, === on null/bool/number/string, "
